@@ -138,9 +138,12 @@ def run_symbolic(spec):
         from symx import core, shims
         from symx.explore import explore, simplify_env
 
-        if not shims.installed():
-            shims.install()
         scn = build(spec)
+        if getattr(scn, "plain", False):  # no symbolic input: the library runs unstubbed
+            if shims.installed():
+                shims.uninstall()
+        elif not shims.installed():
+            shims.install()
         names = list(scn.names)
         nfree = getattr(scn, "nfree", 0)
         nexp = len(names) - nfree
